@@ -355,6 +355,14 @@ func TestReplay(t *testing.T) {
 	if err != nil {
 		t.Fatal(err)
 	}
+	if cf.Sub == "http" {
+		var hc HTTPCase
+		if err := json.Unmarshal(cf.Case, &hc); err != nil {
+			t.Fatal(err)
+		}
+		checkHTTP(t, hc)
+		return
+	}
 	if cf.Sub == "cli" {
 		var cc CLIStop
 		if err := json.Unmarshal(cf.Case, &cc); err != nil {
